@@ -8,7 +8,7 @@ import json, os, re, subprocess, sys, shutil
 from concurrent.futures import ThreadPoolExecutor
 V = os.path.dirname(os.path.dirname(os.path.abspath(__file__)))
 B = os.path.join(V, 'seeded', 'benign')
-names = sys.argv[1:] or sorted(f[:-5] for f in os.listdir(B) if f.endswith('.diff'))
+names = [a for a in sys.argv[1:] if not a.startswith('--')] or sorted(f[:-5] for f in os.listdir(B) if f.endswith('.diff'))
 claimed = sorted(json.load(open(os.path.join(V, 'props.json'))).keys())
 env = dict(os.environ, CARGO_NET_OFFLINE='true', VERIF_EVIDENCE_DIR='/var/tmp/mt-evidence-benign')
 respath = os.path.join(B, 'RESULTS.json')
